@@ -134,12 +134,17 @@ func VerifHarness_C15_synth() {
 			verifAssume(count >= 0)
 		}
 		body = append(body, c15F{"73", []byte{byte('0' + count)}})
+		// the group defects sit in any one entry (first or last)
+		bad := 0
+		if (defect == c15MissingGroupRequired || defect == c15GroupOrder) && entries > 1 {
+			bad = verifConc(ndInt("defective-entry", 0, entries-1))
+		}
 		for e := 0; e < entries; e++ {
 			m67, m68, m69 := c15F{"67", digit("g67")}, c15F{"68", sym("g68")}, c15F{"69", sym("g69")}
 			switch {
-			case defect == c15MissingGroupRequired && e == 0:
+			case defect == c15MissingGroupRequired && e == bad:
 				body = append(body, m67, m69)
-			case defect == c15GroupOrder && e == 0:
+			case defect == c15GroupOrder && e == bad:
 				body = append(body, m67, m69, m68)
 			default:
 				body = append(body, m67, m68, m69)
